@@ -126,7 +126,7 @@ def broadcast(rng):
 
 def generate(rng, tier):
     n = 1500 if tier == 'quick' else 12000
-    out = []
+    out = [{'kind': 'glommer', 'i': i} for i in range(len(glommer_scenarios()))]
     for _ in range(n // 8):
         cells, path = broadcast(rng)
         out.append({'cells': cells, 'target': {'ref': 0}, 'path': path, 'val': {'lit': rng.choice([9, 'w'])}, 'missing': None})
@@ -155,6 +155,72 @@ def generate(rng, tier):
         missing = rng.choice([None, None, None, 'dict', 'dict', 'list', 'obj', 'raise'])
         out.append({'cells': cells, 'target': target, 'path': path, 'val': val, 'missing': missing})
     return out
+
+
+# ---------- missing= under a Glommer with its own registrations (decided on the implementation side: the heap model has one
+# registry) — the created tail is filled through the running scope's registry, like everything else ----------
+class Box:
+    """a container only a Glommer knows how to read and fill"""
+    def __init__(self):
+        self.slots = {}
+
+    def fetch(self, key):
+        return self.slots[key]
+
+    def put(self, key, val):
+        self.slots[key] = val
+
+
+def glommer_scenarios():
+    import collections
+    import glom
+
+    def box_glommer():
+        g = glom.Glommer()
+        g.register(Box, get=Box.fetch, assign=Box.put, exact=True)
+        return g
+
+    def ud_glommer():
+        g = glom.Glommer()
+        g.register(collections.UserDict, get=lambda o, k: o[k], assign=lambda o, k, v: o.__setitem__(k, v))
+        return g
+    return [
+        ('box-tail', box_glommer, lambda: {'keep': 'me'}, 'a.b.c', Box, 42),
+        ('box-one', box_glommer, lambda: {'keep': 'me'}, 'a.b', Box, 'v'),
+        ('box-present', box_glommer, lambda: {'a': {'b': {}}}, 'a.b.c', Box, 1),
+        ('userdict-tail', ud_glommer, lambda: collections.UserDict(keep=1), 'x.y.z', collections.UserDict, 'v'),
+        ('dict-tail', box_glommer, lambda: {}, 'a.b.c', dict, 0),
+    ]
+
+
+def run_glommer(case):
+    import glom
+    name, mk, mk_target, path, factory, val = glommer_scenarios()[case['i']]
+    g = mk()
+    target = mk_target()
+    made = []
+
+    def fac():
+        o = factory()
+        made.append(o)
+        return o
+    problems = []
+    try:
+        ret = g.glom(target, glom.Assign(path, val, missing=fac))
+    except Exception as e:
+        return {'problems': ['%s: Assign(%r, missing=%s) under a Glommer raised %s' % (name, path, factory.__name__, type(e).__name__)]}
+    if ret is not target:
+        problems.append('%s: the target object was not returned' % name)
+    try:
+        back = g.glom(target, path)
+    except Exception as e:
+        back = ('raise', type(e).__name__)
+    if back != val:
+        problems.append('%s: reading %r back through the same Glommer gives %r, not the assigned %r' % (name, path, back, val))
+    stray = [sorted(vars(o)) for o in made if isinstance(o, Box) and sorted(vars(o)) != ['slots']]
+    if stray:
+        problems.append('%s: attributes %r were written on created containers (off the registered assign handler)' % (name, stray))
+    return {'problems': problems}
 
 
 def corpus():
@@ -256,6 +322,8 @@ def snapshot(hr, cells):
 
 def run_impl(case):
     import glom
+    if case.get('kind') == 'glommer':
+        return run_glommer(case)
     hr = HeapRealiser(case['cells'], class_factory)
     target = hr.val(case['target'])
     v = case['val']
@@ -325,7 +393,17 @@ def impl_coq(out):
     return '(MRaise "harness")'
 
 
+_TRIV = None
+
+
 def coq_case(case, out):
+    global _TRIV
+    if case.get('kind') == 'glommer':
+        # decided on the implementation side; the Coq side gets a small ordinary case with its real outcome
+        if _TRIV is None:
+            t = corpus()[1]
+            _TRIV = (t, run_impl(t))
+        return coq_case(*_TRIV)
     v = case['val']
     if 'opaque' in v:
         mv = '(MVLit (GR 4999%nat))'
@@ -340,10 +418,14 @@ def coq_case(case, out):
 
 
 def model_dump_term(case):
+    if case.get('kind') == 'glommer':
+        return '0'
     return 'm_model %s' % coq_case(case, {'raise': 'x'})
 
 
 def direct_oracle(case, out):
+    if case.get('kind') == 'glommer':
+        return '; '.join(out['problems'][:2]) if out.get('problems') else None
     if out.get('ok') and not out.get('same_object'):
         return 'assign() did not return the target object'
     wild = any(p[0] in 'xX' for p in case['path'])
@@ -353,10 +435,14 @@ def direct_oracle(case, out):
 
 
 def nontrivial(case, out):
+    if case.get('kind') == 'glommer':
+        return True
     return len(case['path']) >= 2 or 'raise' in out or out.get('calls', 0) >= 1
 
 
 def classify(case, out):
+    if case.get('kind') == 'glommer':
+        return 'glommer:%d' % case['i']
     wild = any(p[0] in 'xX' for p in case['path'])
     return '%s:%s:missing=%s%s' % ('raise:' + out['raise'] if 'raise' in out else 'ok', len(case['path']), case['missing'], ':wild' if wild else '')
 
